@@ -263,30 +263,49 @@ impl Searcher {
 
         // Checkmate detection
         if moves.is_empty() && currently_in_check {
+            #[cfg(flounder_verif)]
+            verif::quiescence_event(verif::Q_EXIT_MATED, None);
             return -CHECKMATE_SCORE;
         }
 
         let stand_pat = self.evaluator.evaluate(board);
         if stand_pat >= beta {
+            #[cfg(flounder_verif)]
+            verif::quiescence_event(verif::Q_EXIT_STAND_PAT, None);
             return beta;
         }
 
         alpha = max(alpha, stand_pat);
 
+        #[cfg(flounder_verif)]
+        let mut verif_exit = verif::Q_EXIT_COMPLETE;
+
         for mv in moves {
             if self.timer.should_stop() {
+                #[cfg(flounder_verif)]
+                {
+                    verif_exit = verif::Q_EXIT_STOPPED;
+                }
                 break;
             }
+
+            #[cfg(flounder_verif)]
+            verif::quiescence_event(verif::Q_EXAMINE, Some(mv));
 
             let next_position = board.clone_with_move(&mv);
             let score = -self.search_until_quiet(&next_position, -beta, -alpha);
 
             if score >= beta {
+                #[cfg(flounder_verif)]
+                verif::quiescence_event(verif::Q_EXIT_CUTOFF, None);
                 return beta;
             }
 
             alpha = max(alpha, score);
         }
+
+        #[cfg(flounder_verif)]
+        verif::quiescence_event(verif_exit, None);
 
         alpha
     }
@@ -509,6 +528,8 @@ pub mod verif {
             const { RefCell::new(None) };
         static REPETITION_TRACE: RefCell<Option<Vec<(Board, u8, bool)>>> =
             const { RefCell::new(None) };
+        static QUIESCENCE_EVENTS: RefCell<Vec<(u8, Option<Move>)>> =
+            const { RefCell::new(Vec::new()) };
     }
 
     /// With dry run on, `find_best_move` only records its (max_depth, time_limit)
@@ -545,6 +566,7 @@ pub mod verif {
     /// Starts (Some(empty)) or stops (None) recording the move list of every quiescence node
     pub fn set_quiescence_trace(on: bool) {
         QUIESCENCE_TRACE.with(|t| *t.borrow_mut() = if on { Some(Vec::new()) } else { None });
+        QUIESCENCE_EVENTS.with(|e| e.borrow_mut().clear());
     }
 
     pub fn take_quiescence_trace() -> Vec<(Board, bool, Vec<Move>)> {
@@ -560,6 +582,30 @@ pub mod verif {
                 v.push((*board, in_check, moves.to_vec()));
             }
         });
+        quiescence_event(Q_ENTER, None);
+    }
+
+    /// Events of the quiescence search while its trace is on: one Q_ENTER per traced
+    /// node (same order as the node trace), Q_EXAMINE for every move the node actually
+    /// searches, and exactly one Q_EXIT_* when the node returns.
+    pub const Q_ENTER: u8 = 0;
+    pub const Q_EXAMINE: u8 = 1;
+    pub const Q_EXIT_COMPLETE: u8 = 2;
+    pub const Q_EXIT_CUTOFF: u8 = 3;
+    pub const Q_EXIT_STAND_PAT: u8 = 4;
+    pub const Q_EXIT_MATED: u8 = 5;
+    pub const Q_EXIT_STOPPED: u8 = 6;
+
+    pub fn quiescence_event(kind: u8, mv: Option<Move>) {
+        QUIESCENCE_TRACE.with(|t| {
+            if t.borrow().is_some() {
+                QUIESCENCE_EVENTS.with(|e| e.borrow_mut().push((kind, mv)));
+            }
+        });
+    }
+
+    pub fn take_quiescence_events() -> Vec<(u8, Option<Move>)> {
+        QUIESCENCE_EVENTS.with(|e| std::mem::take(&mut *e.borrow_mut()))
     }
 
     pub fn set_repetition_trace(on: bool) {
